@@ -268,8 +268,9 @@ def run_read(shape, cid, run, keep=None, prepared=None, release=False):
     source = io.StringIO(text, newline="")
     limit = run["limit"][0] if run["limit"] else None
     mode = run["mode"]
+    handle = None  # (reader, source) of a reader that stays open, for a later run that reads it again
     if prepared is not None:
-        prepared, text = prepared
+        prepared, text = prepared[0], prepared[1]
     api = run["api"]
     end = run["end"]
     raw = []  # yielded items are kept as they are and looked at only after the iteration has moved on and ended (C06)
@@ -317,6 +318,7 @@ def run_read(shape, cid, run, keep=None, prepared=None, release=False):
                 acc, rej = reader.accepted_rows_count, reader.rejected_rows_count
         else:
             reader = prepared or validio.Reader(cid, source, on_error=mode, validate_until=limit)
+            handle = (reader, getattr(reader, "_source_data_stream_or_path", source))
             if keep is not None:
                 keep.append(reader)  # "never closed": keep it alive so that no destructor interferes
             try:
@@ -338,7 +340,7 @@ def run_read(shape, cid, run, keep=None, prepared=None, release=False):
             acc, rej = reader.accepted_rows_count, reader.rejected_rows_count
     out = [item_of(shape, item, messages) for item in raw]
     return {"out": out, "exc": exc, "acc": acc, "rej": rej, "text": text, "messages": messages,
-            "calls": _stop_call_log(call_log)}
+            "calls": _stop_call_log(call_log), "_reader": handle}
 
 
 def expected_line(shape, row, number):
@@ -484,7 +486,7 @@ def normalise_expected(shape, run, expected):
     return result
 
 
-def differences(run, expected, observed, compare_counters):
+def differences(run, expected, observed, compare_counters, tolerate_readback_end=False):
     problems = []
     if run.get("api") != "validate" and observed["out"] != expected["out"]:  # validate() returns nothing
         problems.append("items are %s but must be %s" % (observed["out"], expected["out"]))
@@ -492,7 +494,8 @@ def differences(run, expected, observed, compare_counters):
     expected_exc = {k: expected["exc"][k] for k in ("cls", "line", "cell", "by", "see")}
     if observed_exc != expected_exc:
         problems.append("escaping error is %s but must be %s" % (observed["exc"], expected_exc))
-    problems.extend(observed.get("messages", []))
+    problems.extend(message for message in observed.get("messages", [])
+                    if not (tolerate_readback_end and message.startswith("reading the output back fails at the end")))
     if observed.get("calls") is not None and expected.get("calls") is not None:
         nchecks = len([1 for entry in expected["calls"] if entry[0] == "cleanup"]) or len(
             [1 for entry in expected["calls"] if entry[0] == "reset"])
